@@ -155,3 +155,9 @@ Print Assumptions C12_source_points.
 Theorem C12_source_sites : gen_yield_sites = [] \/ gen_yield_sites = expected_sites.
 Proof. exact source_sites. Qed.
 Print Assumptions C12_source_sites.
+
+(** the kind of lock each registry entry point takes, read off callsite.rs: rebuild_interest_cache and register_dispatch take the
+    dispatcher list for WRITING, register for READING — the model's [PWrLock] / [PRgRLock] *)
+Theorem C12_source_lock_kinds : gen_lock_kinds = [] \/ gen_lock_kinds = expected_lock_kinds.
+Proof. exact source_lock_kinds. Qed.
+Print Assumptions C12_source_lock_kinds.
